@@ -739,6 +739,12 @@ class Model:
                         and x.func.id == tgt.id) for x in ast.walk(new))
                 if builds and nuses > 1 and as_object:
                     continue
+                # an iterator advanced with next() has state: it keeps its name
+                if any(isinstance(x, ast.Call) and isinstance(x.func, ast.Name)
+                       and x.func.id == "next" and x.args
+                       and isinstance(x.args[0], ast.Name) and x.args[0].id == tgt.id
+                       for x in ast.walk(new)):
+                    continue
                 # only="subscripts": propagate `x = table[i]` lookups and plain
                 # aliases only, containers keep their names
                 if only == "aliases":
